@@ -58,7 +58,7 @@ def run():
     ck = Check("C06")
     thorough = ck.tier == "thorough"
     rng = ck.rng
-    surf = run_cases([{"id": "s", "mode": "surface"}], nproc=1)["s"]["extra"]
+    surf = run_cases([{"id": "s", "mode": "surface"}], nproc=1)["s"]["extra"]["builtins"]
     single = surface_ops(surf)
     names = [n for n, _, _ in POOL]
     tmpl = []
